@@ -39,7 +39,7 @@ FIELDS = {
     "li": (False, True, False, "I"),
     "lin": (False, True, True, "I"),
 }
-OBJECT_TYPES = ("T", "V")
+OBJECT_TYPES = ("T", "V", "W")
 ABSTRACT = ("I", "U")
 
 
@@ -68,12 +68,23 @@ class ResolverError(Exception):
 
 
 _SCHEMAS = {}
+DEFAULT_MODES = {"T": "aw", "V": "aw", "W": "aw"}
 
 
-def build_schema(variant: str):
+def modes_of(case):
+    """is_type_of mode per object type: "none" (no predicate), "sync" (always a plain bool),
+    "aw" (an awaitable whenever the value's `ito_aw` site is awaitable in this run)."""
+    m = dict(DEFAULT_MODES)
+    m.update(case.get("ito_modes") or {})
+    return m
+
+
+def build_schema(variant: str, modes=None):
     """Schema family: every object type has the same field table (FIELDS)."""
-    if variant in _SCHEMAS:
-        return _SCHEMAS[variant]
+    modes = dict(DEFAULT_MODES, **(modes or {}))
+    key = (variant, tuple(sorted(modes.items())))
+    if key in _SCHEMAS:
+        return _SCHEMAS[key]
     from graphql import (
         GraphQLField,
         GraphQLInterfaceType,
@@ -102,11 +113,15 @@ def build_schema(variant: str):
         return {name: GraphQLField(gql_type(name)) for name in FIELDS}
 
     def make_ito(name):
+        mode = modes[name]
+        if mode == "none":
+            return None
+
         def is_type_of(value, info):
             run = value.run
             ok = bool(value.tn == name and value.ito)
             run.events.append(("I", list(value.path), name))
-            if value.ito_aw is not None and value.ito_aw in run.mask:
+            if mode == "aw" and value.ito_aw is not None and value.ito_aw in run.mask:
                 return run.new_handle(value.ito_aw, value.path, "ito", ok, None)
             return ok
 
@@ -125,12 +140,20 @@ def build_schema(variant: str):
         types[name] = GraphQLObjectType(
             name, fields, interfaces=lambda: [types["I"]], is_type_of=make_ito(name)
         )
-    types["U"] = GraphQLUnionType("U", lambda: [types["T"], types["V"]], resolve_type=rt)
+    types["U"] = GraphQLUnionType("U", lambda: [types[n] for n in OBJECT_TYPES], resolve_type=rt)
     types["Q"] = GraphQLObjectType("Q", fields)
     types["M"] = GraphQLObjectType("M", fields)
-    schema = GraphQLSchema(query=types["Q"], mutation=types["M"], types=[types["T"], types["V"], types["U"]])
-    _SCHEMAS[variant] = schema
+    schema = GraphQLSchema(
+        query=types["Q"], mutation=types["M"], types=[types[n] for n in OBJECT_TYPES] + [types["U"]]
+    )
+    _SCHEMAS[key] = schema
     return schema
+
+
+def possible_order(variant, modes, base):
+    """Names of the possible types of an abstract type in the order the executor tries them."""
+    schema = build_schema(variant, modes)
+    return [t.name for t in schema.get_possible_types(schema.type_map[base])]
 
 
 # ------------------------------------------------------------------------------------ documents
@@ -163,6 +186,19 @@ class Handle:
     __slots__ = ("site", "path", "kind", "value", "exc", "fut", "seq")
 
 
+class HFuture(asyncio.Future):
+    """A harness future that records its cancellation at the moment `cancel()` is called (a done
+    callback would only run on a later loop iteration)."""
+
+    on_cancel = None
+
+    def cancel(self, msg=None):
+        ok = super().cancel(msg)
+        if ok and self.on_cancel is not None:
+            self.on_cancel()
+        return ok
+
+
 class Run:
     """State of one controlled execution."""
 
@@ -174,23 +210,40 @@ class Run:
         self.loop = loop
 
     # -- awaitables handed to the executor
-    def new_handle(self, site, path, kind, value, exc, co=False):
+    def new_handle(self, site, path, kind, value, exc, co=False, cleanup=0):
         h = Handle()
         h.site, h.path, h.kind, h.value, h.exc = site, list(path), kind, value, exc
         h.seq = len(self.handles)
-        h.fut = self.loop.create_future()
+        h.fut = HFuture(loop=self.loop)
         self.handles.append(h)
         self.events.append(("H", h.seq, site, list(path), kind))
-
-        def done(f, h=h):
-            if f.cancelled():
-                self.events.append(("C", h.seq, h.site, h.path, h.kind))
-
-        h.fut.add_done_callback(done)
+        h.fut.on_cancel = lambda h=h: self.events.append(("C", h.seq, h.site, h.path, h.kind))
         if co:
-
-            async def wrapper(f=h.fut):
-                return await f
+            # a resolver coroutine: records when its body starts ("B"), when a cancellation is
+            # delivered to it ("X") and when it has finished ("E"), with an awaited cleanup step
+            # (`cleanup` further loop iterations) in its `finally`
+            async def wrapper(f=h.fut, h=h):
+                self.events.append(("B", h.seq, h.site, h.path, h.kind))
+                closed = False
+                try:
+                    return await f
+                except asyncio.CancelledError:
+                    self.events.append(("X", h.seq, h.site, h.path, h.kind))
+                    raise
+                except GeneratorExit:  # closed / garbage collected: nothing may be awaited
+                    closed = True
+                    raise
+                finally:
+                    try:
+                        if not closed:
+                            for _ in range(cleanup):
+                                await asyncio.sleep(0)
+                    except asyncio.CancelledError:
+                        # a second cancellation interrupts the cleanup itself
+                        self.events.append(("X2", h.seq, h.site, h.path, h.kind))
+                        raise
+                    finally:
+                        self.events.append(("E", h.seq, h.site, h.path, h.kind))
 
             return wrapper()
         return h.fut
@@ -232,16 +285,16 @@ class Run:
         """A list item: awaitable or plain; a raising item is an Exception instance."""
         if self.is_aw(vs.get("aw")):
             if vs["t"] == "raise":
-                return self.new_handle(vs["aw"], path, "item", None, self.raw(vs, path), vs.get("co", False))
-            return self.new_handle(vs["aw"], path, "item", lambda: self.raw(vs, path), None, vs.get("co", False))
+                return self.new_handle(vs["aw"], path, "item", None, self.raw(vs, path), vs.get("co", False), vs.get("cl", 0))
+            return self.new_handle(vs["aw"], path, "item", lambda: self.raw(vs, path), None, vs.get("co", False), vs.get("cl", 0))
         return self.raw(vs, path)
 
     def field(self, vs, path):
         """Result of a field resolver."""
         if self.is_aw(vs.get("aw")):
             if vs["t"] == "raise":
-                return self.new_handle(vs["aw"], path, "field", None, self.raw(vs, path), vs.get("co", False))
-            return self.new_handle(vs["aw"], path, "field", lambda: self.raw(vs, path), None, vs.get("co", False))
+                return self.new_handle(vs["aw"], path, "field", None, self.raw(vs, path), vs.get("co", False), vs.get("cl", 0))
+            return self.new_handle(vs["aw"], path, "field", lambda: self.raw(vs, path), None, vs.get("co", False), vs.get("cl", 0))
         val = self.raw(vs, path)
         if vs["t"] == "raise":
             if vs.get("asval"):
@@ -270,10 +323,12 @@ class AIter:
         self.n += 1
         if n < len(items):
             it = items[n]
-            return await self.run.new_handle(self.vs["aiter"], self.path + [n], "anext", lambda: self.run.raw(it, self.path + [n]), None)
+            return await self.run.new_handle(
+                self.vs["aiter"], self.path + [n], "anext", lambda: self.run.raw(it, self.path + [n]), None, True, self.vs.get("cl", 0)
+            )
         if n == len(items) and self.vs.get("iter_raise"):
             exc = ResolverError("aiter@" + ".".join(map(str, self.path)))
-            return await self.run.new_handle(self.vs["aiter"], self.path + [n], "anext", None, exc)
+            return await self.run.new_handle(self.vs["aiter"], self.path + [n], "anext", None, exc, True, self.vs.get("cl", 0))
         raise StopAsyncIteration
 
 
@@ -300,7 +355,7 @@ def run_sync(case):
     from graphql import parse
     from graphql.execution import execute_sync
 
-    schema = build_schema(case["variant"])
+    schema = build_schema(case["variant"], modes_of(case))
     run = Run(case, ())
     root = Obj(case["data"], [], run)
     res = execute_sync(schema, parse(print_doc(case)), root_value=root, field_resolver=field_resolver)
@@ -323,7 +378,7 @@ def run_async(case, mask, schedule):
     from graphql import parse
     from graphql.execution import execute
 
-    schema = build_schema(case["variant"])
+    schema = build_schema(case["variant"], modes_of(case))
     doc = parse(print_doc(case))
     loop = asyncio.new_event_loop()
     run = Run(case, mask, loop)
